@@ -35,7 +35,7 @@ PV(tk, tv, i, acc) ==
                   n == j - i - 2                      \* ids between the count and the next word
                   good == /\ j > i + 1
                           /\ \A x \in (i + 1)..(j - 1) : tk[x] = "NUM"
-                          /\ tv[i + 1] = n /\ n >= 1
+                          /\ tv[i + 1] = n /\ n >= 0
                           /\ tk[i] \notin acc.seen
                           /\ (tk[i] \in {"UNION", "INTE"} => acc.op = "NONE")
                           /\ "FICTIVE" \notin acc.seen
@@ -121,7 +121,7 @@ FileDefects(T) ==
                                \/ ~T.compo.finite \/ T.compo.njunk # 0 \/ ~NoDup(cnames))
         THEN {"composition_block"} ELSE {})
   \cup (IF T.geomcomp.present /\
-           (\/ \E r \in IdxSetOf(grows) : grows[r].count # Len(grows[r].ids) \/ grows[r].count < 1
+           (\/ \E r \in IdxSetOf(grows) : grows[r].count # Len(grows[r].ids)
             \/ \E r \in IdxSetOf(grows) : ~(ToSet(grows[r].ids) \subseteq nonfict)
             \/ \E id \in nonfict : assigned(id) # 1
             \/ (T.compo.present /\ \E r \in IdxSetOf(grows) : grows[r].name \notin ToSet(cnames)))
